@@ -132,10 +132,14 @@ pub fn take_until_and_not<'a>(
                     i,
                     ErrorKind::TakeUntil,
                 ))),
-                (Some(offset), None) => {
+                // The `however_tag` only shadows the `end_tag` where the two overlap.
+                // An `end_tag` that comes first terminates the match.
+                (Some(end_offset), Some(offset)) if offset <= end_offset => {
+                    recursive_until(i, index + offset + t2.len(), t1, t2)
+                }
+                (Some(offset), _) => {
                     Ok(i.take_split(index + offset)).map(|(rem, res)| (rem, res.into_inner()))
                 }
-                (Some(_), Some(offset)) => recursive_until(i, index + offset + 2, t1, t2),
             }
         }
         let res: ParserResult<'_, _> = recursive_until(i, 0, end_tag, however_tag);
